@@ -1,7 +1,163 @@
 /-
-  C06 — property theorems (see DESIGN.md §5 C06).
+  C06 — architecture matching, restriction lists, possibility selection and version
+  constraints follow the Debian semantics (see DESIGN.md §5 C06).
+  Property theorems only; lemmas live in GoDebian/Lemmas/ArchIs.lean.
 -/
 import GoDebian.Model.Dependency
+import GoDebian.Spec.Arch
+import GoDebian.Lemmas.ArchIs
 
 namespace GoDebian.Props.C06
+open GoDebian GoDebian.Dep GoDebian.Spec.Arch
+
+/-- A concrete architecture matches a pattern exactly when every pattern component is
+    "any" or equals the concrete one; `all` as a pattern matches no concrete
+    architecture. -/
+theorem C06_is_wild (c p : Arch) (hc : Concrete c) (hp : Dom p) :
+    c.is p = (decide (p ≠ All) && wildMatches c p) :=
+  Lemmas.Arch.is_wild c p hc hp
+
+/-- gnu-linux-amd64 against the pattern any-linux-any. -/
+example :
+    let c : Arch := ⟨sGnu, sLinux, Bytes.ofString "amd64"⟩
+    let p : Arch := ⟨sAny, sLinux, sAny⟩
+    Concrete c ∧ Dom p ∧ c.is p = true ∧ c.is ⟨sAny, Bytes.ofString "kfreebsd", sAny⟩ = false := by
+  decide +kernel
+
+/-- `all` matches only `all`. -/
+theorem C06_is_all (p : Arch) (hp : Dom p) : All.is p = decide (p = All) :=
+  Lemmas.Arch.is_all p hp
+
+example :
+    Dom ⟨sAny, sAny, sAny⟩ ∧ All.is ⟨sAny, sAny, sAny⟩ = false ∧ Dom All ∧ All.is All = true := by
+  decide +kernel
+
+/-- Two concrete architectures match iff they are equal. -/
+theorem C06_is_concrete (c c' : Arch) (hc : Concrete c) (hc' : Concrete c') :
+    c.is c' = decide (c = c') :=
+  Lemmas.Arch.is_concrete c c' hc hc'
+
+example :
+    let c : Arch := ⟨sGnu, sLinux, Bytes.ofString "amd64"⟩
+    let c' : Arch := ⟨sGnu, sLinux, Bytes.ofString "arm64"⟩
+    Concrete c ∧ Concrete c' ∧ c.is c' = false ∧ c.is c = true := by
+  decide +kernel
+
+/-- Swapping the operands gives the same answer. -/
+theorem C06_is_symm (a b : Arch) (ha : Dom a) (hb : Dom b) : a.is b = b.is a :=
+  Lemmas.Arch.is_symm a b ha hb
+
+example :
+    let a : Arch := ⟨sAny, sLinux, sAny⟩
+    let b : Arch := ⟨sGnu, sLinux, Bytes.ofString "amd64"⟩
+    Dom a ∧ Dom b ∧ a.is b = true ∧ b.is a = true := by
+  decide +kernel
+
+/-- Outside `Dom` (a triple mixing "all" with other components) symmetry is lost, so
+    the hypothesis is needed. -/
+example :
+    let a : Arch := ⟨sAny, sAll, sAll⟩
+    let b : Arch := ⟨sGnu, sAll, sAll⟩
+    ¬ Dom a ∧ a.is b ≠ b.is a := by
+  decide +kernel
+
+/-- A bracketed list admits `a` iff (some entry matches) ≠ negated; the empty list
+    admits everything. -/
+theorem C06_matches (s : ArchSet) (a : Arch) : s.matches a = listAdmits Arch.is s a :=
+  Lemmas.Arch.matches_eq s a
+
+/-- `[!amd64 !i386]` on arm64 and on amd64; the empty list. -/
+example :
+    let amd64 : Arch := ⟨sGnu, sLinux, Bytes.ofString "amd64"⟩
+    let i386 : Arch := ⟨sGnu, sLinux, Bytes.ofString "i386"⟩
+    let arm64 : Arch := ⟨sGnu, sLinux, Bytes.ofString "arm64"⟩
+    let s : ArchSet := ⟨true, [amd64, i386]⟩
+    s.matches arm64 = true ∧ s.matches amd64 = false ∧ (⟨false, []⟩ : ArchSet).matches amd64 = true := by
+  decide +kernel
+
+/-- Per relation, in order, the first non-substvar alternative whose list admits the
+    architecture; relations with no such alternative contribute nothing. -/
+theorem C06_possibilities (d : Dependency) (a : Arch)
+    (h : ∀ rel ∈ d, ∀ p ∈ rel, p.substvar = false → p.archs.isSome) :
+    getPossibilities d a = .ok (d.filterMap (fun rel =>
+      rel.find? (fun p => !p.substvar &&
+        (match p.archs with | some s => listAdmits Arch.is s a | none => false)))) :=
+  Lemmas.Arch.getPossibilities_eq d a h
+
+/-- `foo [i386] | bar, ${misc:Depends}, baz [!amd64]` on amd64 selects `bar` only. -/
+example :
+    let amd64 : Arch := ⟨sGnu, sLinux, Bytes.ofString "amd64"⟩
+    let i386 : Arch := ⟨sGnu, sLinux, Bytes.ofString "i386"⟩
+    let foo : Possibility := ⟨Bytes.ofString "foo", none, some ⟨false, [i386]⟩, [], none, false⟩
+    let bar : Possibility := ⟨Bytes.ofString "bar", none, some ⟨false, []⟩, [], none, false⟩
+    let sv : Possibility := ⟨Bytes.ofString "misc:Depends", none, none, [], none, true⟩
+    let baz : Possibility := ⟨Bytes.ofString "baz", none, some ⟨true, [amd64]⟩, [], none, false⟩
+    let d : Dependency := [[foo, bar], [sv], [baz]]
+    (∀ rel ∈ d, ∀ p ∈ rel, p.substvar = false → p.archs.isSome) ∧
+    getPossibilities d amd64 = .ok [bar] ∧ getPossibilities d i386 = .ok [foo, baz] := by
+  decide +kernel
+
+/-- The hypothesis is needed: a hand-built non-substvar alternative without a list
+    makes the Go code dereference nil. -/
+example :
+    getPossibilities [[⟨[120], none, none, [], none, false⟩]] All = .error .panic := by
+  decide +kernel
+
+/-- All non-substvar alternatives, in order. -/
+theorem C06_all_possibilities (d : Dependency) :
+    getAllPossibilities d = (d.map (·.filter (fun p => !p.substvar))).flatten :=
+  Lemmas.Arch.getAllPossibilities_eq d
+
+/-- All substvars, in order. -/
+theorem C06_substvars (d : Dependency) :
+    getSubstvars d = (d.map (·.filter (·.substvar))).flatten :=
+  Lemmas.Arch.getSubstvars_eq d
+
+example :
+    let foo : Possibility := ⟨Bytes.ofString "foo", none, some ⟨false, []⟩, [], none, false⟩
+    let bar : Possibility := ⟨Bytes.ofString "bar", none, some ⟨false, []⟩, [], none, false⟩
+    let sv : Possibility := ⟨Bytes.ofString "misc:Depends", none, none, [], none, true⟩
+    let d : Dependency := [[foo, sv], [sv, bar]]
+    getAllPossibilities d = [foo, bar] ∧ getSubstvars d = [sv, sv] := by
+  decide +kernel
+
+/-- `(op N)` is satisfied by `V` exactly when `V` compared with `N` is <0, ≤0, =0, ≥0,
+    >0 for `<<`, `<=`, `=`, `>=`, `>>`. -/
+theorem C06_satisfied (op n : Bytes) (v N : Version.Version)
+    (hN : Version.parse n = .ok N) :
+    satisfiedBy ⟨n, op⟩ v =
+      (if op = opLT then decide (Version.compare v N < 0)
+       else if op = opLE then decide (Version.compare v N ≤ 0)
+       else if op = opEQ then decide (Version.compare v N = 0)
+       else if op = opGE then decide (Version.compare v N ≥ 0)
+       else if op = opGT then decide (Version.compare v N > 0) else false) :=
+  Lemmas.Arch.satisfiedBy_ok op n v N hN
+
+/-- `(>= 1.0~rc1)` and `(<< 1.0~rc1)` against 1.0. -/
+example :
+    let n := Bytes.ofString "1.0~rc1"
+    let N : Version.Version := ⟨0, Bytes.ofString "1.0~rc1", []⟩
+    let v : Version.Version := ⟨0, Bytes.ofString "1.0", []⟩
+    Version.parse n = .ok N ∧ satisfiedBy ⟨n, opGE⟩ v = true ∧ satisfiedBy ⟨n, opLT⟩ v = false := by
+  decide +kernel
+
+/-- Never satisfied when `N` is unparsable. -/
+theorem C06_satisfied_unparsable (op n : Bytes) (v : Version.Version) (e : Err)
+    (hN : Version.parse n = .error e) : satisfiedBy ⟨n, op⟩ v = false :=
+  Lemmas.Arch.satisfiedBy_unparsable op n v e hN
+
+example : Version.parse (Bytes.ofString "a b") = .error .err := by decide +kernel
+
+/-- Never satisfied when the operator is unknown. -/
+theorem C06_satisfied_unknown_op (op n : Bytes) (v : Version.Version)
+    (h : op ≠ opLT ∧ op ≠ opLE ∧ op ≠ opEQ ∧ op ≠ opGE ∧ op ≠ opGT) :
+    satisfiedBy ⟨n, op⟩ v = false :=
+  Lemmas.Arch.satisfiedBy_unknown_op op n v h
+
+/-- The deprecated single `<` is not an operator of the model. -/
+example :
+    let op : Bytes := [60]
+    op ≠ opLT ∧ op ≠ opLE ∧ op ≠ opEQ ∧ op ≠ opGE ∧ op ≠ opGT := by
+  decide +kernel
+
 end GoDebian.Props.C06
